@@ -20,6 +20,7 @@ true (the theorems are stated for that shape), and handles `failure_records_erro
 
 Renaming variables keeps the booleans; removing a guard / an assignment / the `.rev()` / the `- 1` flips one."""
 import os
+import re
 import sys
 
 sys.path.insert(0, os.path.dirname(os.path.abspath(__file__)))
@@ -385,6 +386,43 @@ def dispatch_shape(man):
     man["c17_dispatch"] = {"dispatch_functions": sorted(D), "raw_error_helpers": raw, "problems": problems}
     return not problems
 
+
+# ---------------------------------------------------------------------------------------------------------
+# line numbers are kept in at least 32 bits everywhere and never narrowed
+
+WIDE = ("i32", "u32", "i64", "u64", "usize", "isize", "i128", "u128")
+
+
+def line_types(man):
+    problems = []
+    chunk = toks_of("chunk.rs")
+    i = find_seq(chunk, ["lines", ":", "Vec", "<"])
+    elem = chunk[i + 4].text if i >= 0 else None
+    if elem not in WIDE:
+        problems.append("chunk.rs: Chunk.lines is Vec<%s>" % elem)
+    fields = {}
+    for f in ("chunk.rs", "scanner.rs", "compiler.rs", "vm.rs", "object.rs"):
+        toks = toks_of(f)
+        for j in range(len(toks) - 2):
+            # declarations  `line: T`  (struct fields, parameters)
+            if toks[j].text == "line" and toks[j + 1].text == ":" and toks[j + 2].kind == "id" and toks[j + 2].text[0].islower() \
+                    and toks[j + 2].text not in ("self",) and toks[j + 3].text in (",", ")", "}"):
+                t = toks[j + 2].text
+                if re.match(r"^[iu](8|16|32|64|128|size)$", t):
+                    fields["%s:%d" % (f, toks[j].line)] = t
+                    if t not in WIDE:
+                        problems.append("%s:%d: `line: %s`" % (f, toks[j].line, t))
+            # casts  `line as T` / `.line as T` / `lines[..] as T`
+            if toks[j].text == "as" and toks[j + 1].kind == "id" and j >= 1:
+                prev = toks[j - 1].text
+                is_line = prev in ("line", "lines") or (prev == "]" and any(x.text == "lines" for x in toks[max(0, j - 8):j]))
+                if is_line and toks[j + 1].text not in WIDE:
+                    problems.append("%s:%d: line narrowed `as %s`" % (f, toks[j].line, toks[j + 1].text))
+    if not fields:
+        problems.append("no `line: T` declaration recognised")
+    man["c17_line_types"] = {"chunk_lines_element": elem, "line_declarations": fields, "problems": problems}
+    return not problems
+
 def coq_bool(b):
     return "true" if b else "false"
 
@@ -402,6 +440,7 @@ def gen_unwindarms(man):
     ufmt, exc, ctx, udesc = unhandled_shape(man)
     clits, cshape, emit_prev = error_at_shape(man)
     dispatch_ok = dispatch_shape(man)
+    lines_wide = line_types(man)
     tl = (tlits + [None] * 3)[:3] if len(tlits) == 3 else [None] * 3
     cl = clits if len(clits) == 4 else [None] * 4
     templates = [tl[0], tl[1], tl[2], mod_fmt, ufmt, exc, ctx, cl[0], cl[1], cl[2], cl[3]]
@@ -423,6 +462,8 @@ def gen_unwindarms(man):
              "(* vm.rs: in every function the run loop calls with `?` (and every function that calls try_handle_error) no",
              "   `return Err(`, no `?` on a raw error, every error! value reaches try_handle_error *)",
              "Definition dispatch_errors_go_through_handlers : bool := %s." % coq_bool(dispatch_ok),
+             "(* chunk.rs Chunk.lines / write, scanner.rs Token.line / Scanner.line, every `line as T`: at least 32 bits *)",
+             "Definition line_types_wide : bool := %s." % coq_bool(lines_wide),
              "(* vm.rs fn new_error_from_value: class name of the instance, message split at newlines *)",
              "Definition unhandled_names_instance_class : bool := %s." % coq_bool(udesc),
              "(* compiler.rs fn error_at: token.line, Eof / Error arms; fn emit_byte: previous.line *)",
